@@ -84,7 +84,10 @@ type Block struct {
 type File struct {
 	Name    string   `json:"name"`
 	Imports []string `json:"imports,omitempty"`
-	Blocks  []Block  `json:"blocks"`
+	// Noise[i] = lines without meaning (blank, whitespace-only, column-0 and indented comments) written before
+	// import i; Noise[len(Imports)] = after the last import (before the first block)
+	Noise  [][]string `json:"noise,omitempty"`
+	Blocks []Block    `json:"blocks"`
 }
 type Layout struct {
 	Root  string `json:"root"`
@@ -182,10 +185,19 @@ func render(l Layout) map[string]string {
 	out := map[string]string{}
 	for _, f := range l.Files {
 		var sb strings.Builder
-		for _, i := range f.Imports {
+		noise := func(i int) {
+			if i < len(f.Noise) {
+				for _, l := range f.Noise[i] {
+					sb.WriteString(l + "\n")
+				}
+			}
+		}
+		for k, i := range f.Imports {
+			noise(k)
 			fmt.Fprintf(&sb, "import %s\n", strings.TrimSuffix(i, ".sysl"))
 		}
-		if len(f.Imports) > 0 {
+		noise(len(f.Imports))
+		if len(f.Imports) > 0 && len(f.Noise) == 0 {
 			sb.WriteString("\n")
 		}
 		for _, b := range f.Blocks {
@@ -345,13 +357,63 @@ func normalise(m *sysl.Module) *sysl.Module {
 	c := proto.Clone(m).(*sysl.Module)
 	c.Imports = nil
 	scrub(c.ProtoReflect())
-	for _, a := range c.Apps {
-		for _, t := range a.Types {
-			if pk := t.GetRelation().GetPrimaryKey(); pk != nil {
-				sort.Strings(pk.AttrName)
+	return c
+}
+
+// flattenOrder: the files in the order the parser processes them (a file before its imports, imports in textual
+// order, every file once)
+func flattenOrder(l Layout) []File {
+	byName := map[string]File{}
+	for _, f := range l.Files {
+		byName[f.Name] = f
+	}
+	var out []File
+	seen := map[string]bool{}
+	var visit func(n string)
+	visit = func(n string) {
+		f, ok := byName[n]
+		if seen[n] || !ok {
+			return
+		}
+		seen[n] = true
+		out = append(out, f)
+		for _, i := range f.Imports {
+			visit(i)
+		}
+	}
+	visit(l.Root)
+	return out
+}
+
+// keySeq: the ~pk fields of table (app, ty) in the order the layout declares them (processing order)
+func keySeq(l Layout, app, ty string) []string {
+	var ks []string
+	for _, f := range flattenOrder(l) {
+		for _, b := range f.Blocks {
+			if strings.Join(b.Parts, " :: ") != app {
+				continue
+			}
+			for _, m := range b.Members {
+				if m.Kind != "table" || m.Name != ty {
+					continue
+				}
+				for _, fd := range m.Fields {
+					for _, t := range fd.A.Tags {
+						if t == "pk" {
+							ks = append(ks, fd.Name)
+							break
+						}
+					}
+				}
 			}
 		}
 	}
+	return ks
+}
+
+func sortedCopy(ss []string) []string {
+	c := append([]string{}, ss...)
+	sort.Strings(c)
 	return c
 }
 
@@ -402,7 +464,7 @@ func keysOf[M ~map[string]V, V any](m M) []string {
 }
 
 // diff: the first difference between the (normalised) split and joined models, as (abstract key, description)
-func diff(split, joined *sysl.Module, l Layout) (string, string) {
+func diff(c *common.Ctx, split, joined *sysl.Module, l, jl Layout) (string, string) {
 	if a, b := keysOf(split.Apps), keysOf(joined.Apps); fmt.Sprint(a) != fmt.Sprint(b) {
 		return "app-set", fmt.Sprintf("applications %q (split) vs %q (joined)", a, b)
 	}
@@ -426,6 +488,17 @@ func diff(split, joined *sysl.Module, l Layout) (string, string) {
 			sc, jc := proto.Clone(st).(*sysl.Type), proto.Clone(jt).(*sysl.Type)
 			if sc.GetRelation() != nil && jc.GetRelation() != nil {
 				sc.GetRelation().PrimaryKey, jc.GetRelation().PrimaryKey = nil, nil
+				spk, jpk := st.GetRelation().GetPrimaryKey().GetAttrName(), jt.GetRelation().GetPrimaryKey().GetAttrName()
+				if proto.Equal(sc, jc) && fmt.Sprint(sortedCopy(spk)) == fmt.Sprint(sortedCopy(jpk)) {
+					// the same key fields in another order: demanded to be the joined form's order exactly when the
+					// split form declares the key fields in that order ("as if it was declared in one block")
+					if fmt.Sprint(keySeq(l, an, tn)) == fmt.Sprint(keySeq(jl, an, tn)) {
+						return "primary-key-order", fmt.Sprintf("app %q table %q: the blocks declare the key fields in the order %q, as the joined form does, but the compiled key is %q (joined: %q)", an, tn, keySeq(l, an, tn), spk, jpk)
+					}
+					c.Hist("pk-order-differs-with-block-order(accepted)")
+					st.GetRelation().PrimaryKey = jt.GetRelation().PrimaryKey
+					continue
+				}
 				if proto.Equal(sc, jc) {
 					what := fmt.Sprintf("app %q table %q: primary key %q in the split form, %q joined", an, tn,
 						st.GetRelation().GetPrimaryKey().GetAttrName(), jt.GetRelation().GetPrimaryKey().GetAttrName())
@@ -474,7 +547,21 @@ func judge(c *common.Ctx, rp replay, sm, jm *sysl.Module, serr, jerr string) {
 		c.Fail("split-form-rejected", "the joined form compiles but the split form does not: "+serr, rp)
 		return
 	}
-	k, what := diff(normalise(sm), normalise(jm), rp.Split)
+	for _, f := range rp.Joined.Files {
+		for _, b := range f.Blocks {
+			for _, m := range b.Members {
+				an := strings.Join(b.Parts, " :: ")
+				if m.Kind == "table" && keyFragments(rp.Split, an, m.Name) >= 2 {
+					if fmt.Sprint(keySeq(rp.Split, an, m.Name)) == fmt.Sprint(keySeq(rp.Joined, an, m.Name)) {
+						c.Hist("split-key:compared-as-list")
+					} else {
+						c.Hist("split-key:compared-as-set")
+					}
+				}
+			}
+		}
+	}
+	k, what := diff(c, normalise(sm), normalise(jm), rp.Split, rp.Joined)
 	if k != "" {
 		c.Fail(k, what, rp)
 	}
@@ -872,6 +959,7 @@ type splitOpts struct {
 	maxBlocks, maxFiles int
 	splitFields         bool // fields of one type / children of one REST tree over several blocks
 	shape               int  // 0 random, 1 star, 2 chain
+	ordered             bool // shares, blocks and files keep the declaration order (the key ORDER is then demanded too)
 }
 
 // split: a random layout of the specification (the well-formed stream: every member in exactly one block,
@@ -909,6 +997,9 @@ func (g gen) split(s Spec, o splitOpts) Layout {
 					}
 				}
 				shuffle(g.r, assign)
+				if o.ordered {
+					sort.Ints(assign) // contiguous shares in declaration order
+				}
 				for i, f := range m.Fields {
 					frs[assign[i]].Fields = append(frs[assign[i]].Fields, f)
 				}
@@ -945,7 +1036,9 @@ func (g gen) split(s Spec, o splitOpts) Layout {
 			}
 		}
 		// the first k pieces (in random order) open one block each, the others go anywhere
-		shuffle(g.r, pieces)
+		if !o.ordered {
+			shuffle(g.r, pieces)
+		}
 		if k > len(pieces) {
 			k = len(pieces)
 		}
@@ -960,6 +1053,9 @@ func (g gen) split(s Spec, o splitOpts) Layout {
 			bi := g.r.Intn(k)
 			if i < k {
 				bi = i
+			}
+			if o.ordered {
+				bi = i * k / len(pieces)
 			}
 			bs[bi].Members = append(bs[bi].Members, pc)
 		}
@@ -976,9 +1072,39 @@ func (g gen) split(s Spec, o splitOpts) Layout {
 		}
 		ne[0].Long, ne[0].A = a.Long, a.A
 		for i, b := range ne {
-			shuffle(g.r, b.Members)
+			if !o.ordered {
+				shuffle(g.r, b.Members)
+			}
 			blocks = append(blocks, tagged{b, i == 0})
 		}
+	}
+	if o.ordered {
+		// contiguous runs of the block list over the files of a chain or an in-order star
+		nf := 1 + g.r.Intn(o.maxFiles)
+		if nf > len(blocks) {
+			nf = len(blocks)
+		}
+		files := make([]File, nf)
+		for i := range files {
+			files[i].Name = fmt.Sprintf("f%d.sysl", i)
+		}
+		files[0].Name = "root.sysl"
+		for i, b := range blocks {
+			fi := i * nf / len(blocks)
+			files[fi].Blocks = append(files[fi].Blocks, b.b)
+		}
+		star := g.r.Bool()
+		for i := 1; i < nf; i++ {
+			if star {
+				files[0].Imports = append(files[0].Imports, files[i].Name)
+			} else {
+				files[i-1].Imports = append(files[i-1].Imports, files[i].Name)
+			}
+		}
+		for i := range files {
+			g.noise(&files[i])
+		}
+		return Layout{Root: "root.sysl", Files: files}
 	}
 	nf := 1 + g.r.Intn(o.maxFiles)
 	if nf == 1 && o.maxFiles > 1 && g.r.Chance(2, 3) {
@@ -1067,8 +1193,24 @@ func (g gen) split(s Spec, o splitOpts) Layout {
 	}
 	for i := range files {
 		shuffle(g.r, files[i].Imports)
+		g.noise(&files[i])
 	}
 	return Layout{Root: "root.sysl", Files: files}
+}
+
+var noiseLines = []string{"", "", "   ", "\t", "# a comment", "#", "    # an indented comment", "  #import nothing", "        "}
+
+// noise: the layout of the import section of a file - nothing in it carries meaning
+func (g gen) noise(f *File) {
+	if g.r.Chance(1, 4) {
+		return // the tidy layout
+	}
+	f.Noise = make([][]string, len(f.Imports)+1)
+	for i := range f.Noise {
+		for n := g.r.Intn(3); n > 0; n-- {
+			f.Noise[i] = append(f.Noise[i], noiseLines[g.r.Intn(len(noiseLines))])
+		}
+	}
 }
 
 // hostile: layouts outside the theorem's hypotheses (only the correspondence speaks about them): attributes on
@@ -1264,9 +1406,12 @@ Local Open Scope positive_scope.`
 		case 1:
 			s = g.spec(3, 7)
 			o = splitOpts{maxBlocks: 4, maxFiles: 4, splitFields: true}
-		case 2: // members only (no field-level split), chains
+		case 2: // order-preserving splits: shares, blocks and files in declaration order - key order is compared too
 			s = g.spec(2, 6)
-			o = splitOpts{maxBlocks: 4, maxFiles: 4, splitFields: false, shape: 2}
+			o = splitOpts{maxBlocks: 4, maxFiles: 4, splitFields: true, ordered: true}
+			if i%8 == 2 { // members only (no field-level split), chains
+				o = splitOpts{maxBlocks: 4, maxFiles: 4, splitFields: false, shape: 2}
+			}
 		default:
 			s = g.spec(2, 8)
 			o = splitOpts{maxBlocks: 5, maxFiles: 4, splitFields: true, shape: 1 + g.r.Intn(3)}
